@@ -1,5 +1,6 @@
 //! C18 — slicing a text input for parallel work loses nothing and reorders nothing
 use crate::runner::{mark_progress, Obs, Prop, Tier};
+use bigtools::bed::bedparser::{BedFileStream, StreamingBedValues};
 use bigtools::bed::indexer::index_chroms;
 use bigtools::utils::file_view::FileView;
 use bigtools::utils::split_file_into_chunks_by_size;
@@ -177,8 +178,50 @@ fn check_text(lines: &[(u8, u32)], final_newline: bool, grouped: bool, path: &st
                 par, serial
             ));
         }
+        // the same through the crate's own record reader (what the serial and the parallel source use)
+        mark_progress();
+        let serial_rec = parse_records(File::open(path).unwrap()).map_err(|e| format!("serial record reader failed: {}; {}", e, desc()))?;
+        let mut par_rec = vec![];
+        for (i, (off, _)) in idx.iter().enumerate() {
+            let end = idx.get(i + 1).map(|n| n.0).unwrap_or(u64::MAX);
+            let view = FileView::new(File::open(path).unwrap(), *off, end).map_err(|e| format!("FileView::new failed: {}", e))?;
+            par_rec.extend(parse_records(view).map_err(|e| format!("record reader over the view [{}, {}) failed: {}; {}", off, end, e, desc()))?);
+        }
+        obs.evals += 1;
+        if par_rec != serial_rec {
+            let k = par_rec.iter().zip(serial_rec.iter()).position(|(a, b)| a != b).unwrap_or(par_rec.len().min(serial_rec.len()));
+            return Err(format!(
+                "the record stream read through the per-chromosome views differs from the serial record stream at record #{}: {:?} vs {:?} ({} vs {} records); {}",
+                k,
+                par_rec.get(k),
+                serial_rec.get(k),
+                par_rec.len(),
+                serial_rec.len(),
+                desc()
+            ));
+        }
     }
     Ok(())
+}
+
+fn parse_records<R: Read>(r: R) -> Result<Vec<(String, u32, u32, String)>, String> {
+    let r = catch_unwind(AssertUnwindSafe(|| {
+        let mut st = BedFileStream::from_bed_file(r);
+        let mut out = vec![];
+        loop {
+            match st.next() {
+                None => break,
+                Some(Ok((c, e))) => out.push((c.to_string(), e.start, e.end, e.rest)),
+                Some(Err(e)) => return Err(e.to_string()),
+            }
+        }
+        Ok(out)
+    }));
+    let p = crate::runner::take_last_panic();
+    match r {
+        Ok(x) => x,
+        Err(_) => Err(format!("panicked ({})", p)),
+    }
 }
 
 // ---------------------------------------------------------------------------------------------
